@@ -57,7 +57,7 @@ Qed.
 (* find on a rendered spelling = look-up of what its root form means, then the walk *)
 Definition find_sp (W : wsdl) (sp : spelling) : fres :=
   match root_uri W (sp_root sp) with
-  | None => FErr
+  | None => FNone
   | Some u =>
       match root_lookup W (root_name (sp_root sp)) u with
       | LNone => FNone
@@ -420,12 +420,13 @@ Proof.
   - destruct (find_simple W q) as [[[ns n] vals]|]; discriminate.
 Qed.
 
-Lemma finish_ok W path s tg :
-  wf_names W = true -> repr W s tg -> target_ok W false tg (finish W path s) = true.
+Lemma finish_ok W strict path s tg :
+  wf_names W = true -> (strict = false \/ no_enum_members W = true) ->
+  repr W s tg -> target_ok W strict tg (finish W path s) = true.
 Proof.
-  intros Hn Hrep. destruct s as [t|sns sn vals|v|en|a| |bn]; destruct tg as [q|]; cbn in Hrep; try contradiction.
+  intros Hn Hst Hrep. destruct s as [t|sns sn vals|v|en|a| |bn]; destruct tg as [q|]; cbn in Hrep; try contradiction.
   - cbn [finish target_ok]. rewrite Hrep. rewrite <- (find_named_qn W q t Hrep).
-    apply create_mirrors_type_l; auto. eapply find_named_complex_in; eauto.
+    apply create_mirrors_type_gen; auto. eapply find_named_complex_in; eauto.
   - unfold target_ok. rewrite Hrep. destruct vals as [|v vs]; [reflexivity|].
     cbn [finish]. apply enum_items_ok.
   - reflexivity.
@@ -438,22 +439,23 @@ Qed.
 Definition des (o : option (list target)) : designation :=
   match o with Some ts => DTargets ts | None => DNoClaim end.
 
-Lemma from_root_ok W sp s tg :
-  wf_names W = true -> wf_refs W = true -> wf_spelling sp = true -> repr W s tg ->
-  outcome_ok W false (des (steps W (sp_members sp) [tg]))
+Lemma from_root_ok W strict sp s tg :
+  wf_names W = true -> (strict = false \/ no_enum_members W = true) ->
+  wf_refs W = true -> wf_spelling sp = true -> repr W s tg ->
+  outcome_ok W strict (des (steps W (sp_members sp) [tg]))
     (match walk_sp W s (sp_members sp) with
      | LNone => RTypeNotFound
      | LTypeNotFound => RTypeNotFound
      | LOk s' => ROk (finish W (render sp) s')
      end) = true.
 Proof.
-  intros Hn Hr Hsp Hrep. unfold wf_spelling in Hsp.
+  intros Hn Hst Hr Hsp Hrep. unfold wf_spelling in Hsp.
   apply andb_true_iff in Hsp as [Hsp Ha]. apply andb_true_iff in Hsp as [_ Hm].
   pose proof (walk_refines W Hn Hr (sp_members sp) s tg Hrep Hm Ha) as H.
   destruct (steps W (sp_members sp) [tg]) as [ts|]; [|reflexivity].
   destruct H as [[H1 H2]|[s' [tg' [H1 [H2 H3]]]]]; subst ts; rewrite H1; cbn [des outcome_ok].
   - reflexivity.
-  - cbn [existsb]. rewrite (finish_ok W (render sp) s' tg' Hn H3). reflexivity.
+  - cbn [existsb]. rewrite (finish_ok W strict (render sp) s' tg' Hn Hst H3). reflexivity.
 Qed.
 
 Lemma find_filter {A} (f : A -> bool) l :
@@ -468,17 +470,18 @@ Qed.
 Lemma is_builtin_not_w3 n u : starts_with w3_prefix u = false -> is_builtin_ref n u = false.
 Proof. unfold is_builtin_ref. intros ->. apply andb_false_r. Qed.
 
-Theorem create_meets_spec_l W sp :
-  wf_names W = true -> wf_refs W = true -> wf_spelling sp = true ->
-  spec_check W false sp (create W (render sp)) = true.
+Theorem create_meets_spec_gen W strict sp :
+  wf_names W = true -> (strict = false \/ no_enum_members W = true) ->
+  wf_refs W = true -> wf_spelling sp = true ->
+  spec_check W strict sp (create W (render sp)) = true.
 Proof.
-  intros Hn Hr Hsp. rewrite create_finish, (find_path_render W sp Hsp).
+  intros Hn Hst Hr Hsp. rewrite create_finish, (find_path_render W sp Hsp).
   unfold spec_check, designate, find_sp, root_targets.
   assert (Hmem : forallb member_ok (sp_members sp) = true /\ attrs_last (sp_members sp) = true).
   { unfold wf_spelling in Hsp. apply andb_true_iff in Hsp as [Hsp Ha].
     apply andb_true_iff in Hsp as [_ Hm]. auto. }
   destruct Hmem as [Hm Ha].
-  destruct (root_uri W (sp_root sp)) as [u|]; [|reflexivity].
+  destruct (root_uri W (sp_root sp)) as [u|]; [|cbn; rewrite steps_nil; auto].
   destruct (starts_with w3_prefix u) eqn:Ew3; [reflexivity|].
   unfold root_lookup. rewrite (is_builtin_not_w3 _ _ Ew3).
   destruct (lookup_uri W u) as [ns|]; [|cbn; rewrite steps_nil; auto].
@@ -489,7 +492,7 @@ Proof.
     cbn [map app]. unfold is_type.
     destruct (find_named W (ns, nm)) as [s0|] eqn:Efn.
     + cbn [map existsb]. rewrite orb_false_r.
-      pose proof (from_root_ok W sp s0 (TgType (ns, nm)) Hn Hr Hsp (repr_named W _ _ Efn)) as H.
+      pose proof (from_root_ok W strict sp s0 (TgType (ns, nm)) Hn Hst Hr Hsp (repr_named W _ _ Efn)) as H.
       unfold des in H. destruct (steps W (sp_members sp) [TgType (ns, nm)]); auto.
       destruct (walk_sp W s0 (sp_members sp)); exact H.
     + cbn. rewrite steps_nil; auto.
@@ -500,13 +503,24 @@ Proof.
       apply filter_In in H. tauto. }
     destruct (resolve_elem_repr W en ty (wf_refs_elem W _ Hr Hin)) as [s0 [Hs0 Hrep0]].
     rewrite Hs0. cbn [map app snd].
-    pose proof (from_root_ok W sp s0 (target_of_tref ty) Hn Hr Hsp Hrep0) as H.
+    pose proof (from_root_ok W strict sp s0 (target_of_tref ty) Hn Hst Hr Hsp Hrep0) as H.
     remember (map (fun e : nsid * name * tref => target_of_tref (snd e)) rest ++
               (if is_type W (ns, nm) then [TgType (ns, nm)] else [])) as more.
     cbn [map existsb]. apply orb_true_iff. left.
     unfold des in H. destruct (steps W (sp_members sp) [target_of_tref ty]); auto.
     destruct (walk_sp W s0 (sp_members sp)); exact H.
 Qed.
+
+Theorem create_meets_spec_l W sp :
+  wf_names W = true -> wf_refs W = true -> wf_spelling sp = true ->
+  spec_check W false sp (create W (render sp)) = true.
+Proof. intros. apply create_meets_spec_gen; auto. Qed.
+
+(* the letter of the text, where no required member has an enumeration type *)
+Theorem create_meets_strict_spec_partial_l W sp :
+  wf_names W = true -> wf_refs W = true -> no_enum_members W = true -> wf_spelling sp = true ->
+  spec_check W true sp (create W (render sp)) = true.
+Proof. intros. apply create_meets_spec_gen; auto. Qed.
 
 (* ------------------------------------------------------------------ *)
 (* corollaries                                                         *)
@@ -542,10 +556,9 @@ Lemma create_never_partial_l W sp v :
 Proof.
   intros Hn Hr Hsp Hall Hc. pose proof (create_meets_spec_l W sp Hn Hr Hsp) as H.
   unfold spec_check in H. apply existsb_exists in H as [d [Hd Ho]]. rewrite Hc in Ho.
-  destruct d as [ts| |]; cbn in Ho.
+  destruct d as [ts|]; cbn in Ho.
   - destruct ts as [|tg ts]; [discriminate|].
     apply existsb_exists in Ho as [tg' [Ht Hok]]. exists (tg :: ts), tg'. auto.
-  - discriminate.
   - exfalso. eapply Hall; eauto.
 Qed.
 
@@ -582,3 +595,17 @@ Lemma not_rendered path :
   (forall sp, wf_spelling sp = true -> render sp = path ->
               split path = render_root (sp_root sp) :: map render_member (sp_members sp)).
 Proof. intros sp H <-. apply split_wellformed_l. exact H. Qed.
+
+(* an undeclared prefix is an unknown name like any other *)
+Lemma create_undeclared_prefix_l W p n ms :
+  wf_names W = true -> wf_refs W = true -> wf_spelling (mkSp (RPrefixed p n) ms) = true ->
+  resolve_prefix W p = None ->
+  create W (render (mkSp (RPrefixed p n) ms)) = RTypeNotFound.
+Proof.
+  intros Hn Hr Hsp Hp. apply create_unknown_raises_l; auto.
+  intros d Hd. unfold designate, root_targets in Hd. cbn [sp_root sp_members root_uri] in Hd.
+  rewrite Hp in Hd.
+  unfold wf_spelling in Hsp. apply andb_true_iff in Hsp as [Hsp Ha]. apply andb_true_iff in Hsp as [_ Hm].
+  cbn [sp_members] in Hm, Ha. rewrite steps_nil in Hd by assumption.
+  destruct Hd as [<-|[]]. reflexivity.
+Qed.
